@@ -760,3 +760,138 @@ func ruleQ8(c *Ctx) {
 		})
 	}
 }
+
+// ---------------------------------------------------------------- Q6b / Q9
+
+// ruleQ6b: in SortQuick no path re-links the popped elements without having
+// gone through the stable sort.
+func ruleQ6b(c *Ctx) {
+	R := c.R
+	p := c.P
+	R.Rule("Q6b", "in List.SortQuick every path from the entry to a re-linking Append passes the sort.SliceStable call (an `already sorted` early return is fine; a path that re-links in some other order — e.g. a reversed descending run — is not stable)", 1)
+	f := p.FuncNamed("dt.(*List).SortQuick")
+	at := "dt.(*List).SortQuick/relink-after-stable-sort"
+	if f == nil {
+		R.Fail("Q6b", at, "-", "not found")
+		return
+	}
+	info := f.Info()
+	fl := newFlow(f)
+	var appendCalls []ast.Node
+	walkNoLit(f.Body, func(x ast.Node) bool {
+		if call, ok := x.(*ast.CallExpr); ok && callName(info, call) == "dt.(*Element).Append" {
+			appendCalls = append(appendCalls, call)
+		}
+		return true
+	})
+	if len(appendCalls) == 0 {
+		R.Undecided("Q6b", at, p.Position(f.Pos()), "SortQuick no longer re-links with Element.Append")
+		return
+	}
+	isStable := func(n ast.Node) bool {
+		hit := false
+		ast.Inspect(n, func(y ast.Node) bool {
+			if call, ok := y.(*ast.CallExpr); ok && callName(info, call) == "sort.SliceStable" {
+				hit = true
+			}
+			return !hit
+		})
+		return hit
+	}
+	bad := ""
+	for _, ac := range appendCalls {
+		target, ok := fl.At(ac)
+		if !ok {
+			continue
+		}
+		if path, found := fl.pathToNodeAvoiding(target, isStable); found {
+			bad = p.Position(ac.Pos())
+			_ = path
+		}
+	}
+	R.Check(bad == "", "Q6b", at, p.Position(f.Pos()), "every re-link is preceded by the stable sort", "SortQuick can reach the re-linking Append at "+bad+" without sort.SliceStable: on that path the order of the elements (and of equal elements among themselves) is whatever the popping produced")
+}
+
+// ruleQ9: the list producers decide "end of iteration" on the element they
+// advanced to.
+func ruleQ9(c *Ctx) {
+	R := c.R
+	p := c.P
+	R.Rule("Q9", "List.Producer / ProducerReverse return io.EOF only after advancing the cursor (the end-of-ring test is made on the element advanced to; a removed element's retained links still lead on, which is what an ordered Set's iterator relies on when the last-produced member is deleted)", 2)
+	for _, name := range []string{"dt.(*List).Producer", "dt.(*List).ProducerReverse"} {
+		f := p.FuncNamed(name)
+		if f == nil || len(f.Lits) == 0 {
+			R.Fail("Q9", name, "-", "not found")
+			continue
+		}
+		lit := f.Lits[0]
+		info := lit.Info()
+		fl := newFlow(lit)
+		var advance ast.Node
+		walkNoLit(lit.Body, func(x ast.Node) bool {
+			if as, ok := x.(*ast.AssignStmt); ok && len(as.Lhs) == 1 && len(as.Rhs) == 1 {
+				if call, ok := ast.Unparen(as.Rhs[0]).(*ast.CallExpr); ok {
+					switch callName(info, call) {
+					case "dt.(*Element).Next", "dt.(*Element).Previous":
+						if advance == nil {
+							advance = as
+						}
+					}
+				}
+			}
+			return true
+		})
+		bad := ""
+		walkNoLit(lit.Body, func(x ast.Node) bool {
+			rs, ok := x.(*ast.ReturnStmt)
+			if !ok || len(rs.Results) != 2 {
+				return true
+			}
+			if exprStr(rs.Results[1]) == "io.EOF" && (advance == nil || !fl.Dominates(advance, rs)) {
+				bad = p.Position(rs.Pos())
+			}
+			return true
+		})
+		R.Check(advance != nil && bad == "", "Q9", name+"/eof-after-advance", p.Position(f.Pos()), "every io.EOF follows the cursor advance", name+" returns io.EOF at "+bad+" before advancing the cursor: the iteration ends on the state of the element left behind (e.g. because it was removed) while members that were never visited remain")
+	}
+}
+
+// ---------------------------------------------------------------- H7
+
+// ruleH7: Merge replays every source bucket at the bucket's own representative
+// value (valueFromIdx), which countsIndexFor maps back to the same bucket and
+// which is never above the trackable range; any derived value (the highest
+// equivalent value, a midpoint) can leave the range for the top bucket and is
+// then dropped.
+func ruleH7(c *Ctx) {
+	R := c.R
+	p := c.P
+	R.Rule("H7", "Histogram.Merge records each source bucket at the iterator's valueFromIdx with the iterator's countAtIdx, and counts what RecordValues refuses as dropped", 1)
+	f := p.FuncNamed("dt/hdrhist.(*Histogram).Merge")
+	at := "hdrhist.(*Histogram).Merge/replay"
+	if f == nil {
+		R.Fail("H7", at, "-", "Merge not found")
+		return
+	}
+	info := f.Info()
+	var rec *ast.CallExpr
+	walkNoLit(f.Body, func(x ast.Node) bool {
+		if call, ok := x.(*ast.CallExpr); ok && callName(info, call) == "dt/hdrhist.(*Histogram).RecordValues" {
+			rec = call
+		}
+		return true
+	})
+	if rec == nil || len(rec.Args) != 2 {
+		R.Fail("H7", at, p.Position(f.Pos()), "Merge does not replay the source through RecordValues")
+		return
+	}
+	field := func(e ast.Expr) string {
+		if se, ok := ast.Unparen(resolveLocal(f, e)).(*ast.SelectorExpr); ok {
+			return se.Sel.Name
+		}
+		return exprStr(e)
+	}
+	v, n := field(rec.Args[0]), field(rec.Args[1])
+	R.Check(v == "valueFromIdx" && n == "countAtIdx", "H7", at, p.Position(rec.Pos()), "RecordValues(valueFromIdx, countAtIdx)",
+		fmt.Sprintf("Merge replays a bucket as RecordValues(%s, %s): a value other than the bucket's own representative can fall outside the trackable range (or into a neighbouring bucket), so merging into an empty histogram of the same shape drops or moves counts", v, n))
+}
